@@ -435,7 +435,7 @@ def populate(path: str, entries: List[List[Any]]) -> None:
 
 
 def read_back(path: str, before: List[List[Any]], stream: Optional[_Stream],
-              logname: Optional[str] = None) -> List[List[Any]]:
+              logname: Optional[str] = None, created: Optional[List[str]] = None) -> List[List[Any]]:
     """the listing afterwards: surviving old entries in their old order, then new ones by name;
     `logname`: the entry the run itself logs to (or into): its text is only known to grow"""
     old = {name: (is_dir, content) for name, is_dir, content in before}
@@ -452,6 +452,8 @@ def read_back(path: str, before: List[List[Any]], stream: Optional[_Stream],
         with open(full, encoding="utf-8", errors="replace") as handle:
             text = handle.read()
         prev = raw_of(old[name][1]) if name in old and not old[name][0] else None
+        if name in ("profiling_results", "profiling_results.bin") and text != (prev or ""):
+            return [name, False, [["raw", "<profile report>" if name == "profiling_results" else "<profile data>"]]]
         if name == logname and text != (prev or "") and text.startswith(prev or ""):
             return [name, False, ([["raw", prev]] if prev else []) + [["raw", "<log>"]]]
         return [name, False, content_tokens(text, prev)]
@@ -462,7 +464,9 @@ def read_back(path: str, before: List[List[Any]], stream: Optional[_Stream],
             out.append([name, False, content_tokens(stream.text, raw_of(content))])
         elif name in present:
             out.append(entry(name))
-    for name in sorted(present - set(old), key=lambda n: (n != logname, n)):   # logging creates its file first
+    order = {n: k for k, n in reversed(list(enumerate(created or [])))}
+    # new entries in the order they were created (logging creates its file first)
+    for name in sorted(present - set(old), key=lambda n: (n != logname, order.get(n, len(order)), n)):
         out.append(entry(name))
     return out
 
@@ -501,6 +505,7 @@ class C20(Property):
              ("antismash/main.py", "canonical_base_filename"),
              ("antismash/main.py", "_run_antismash"),
              ("antismash/main.py", "run_antismash"),
+             ("antismash/main.py", "write_profiling_results"),
              ("antismash/common/logs.py", "changed_logging"),
              ("antismash/common/serialiser.py", "AntismashResults.from_file"),
              ("antismash/main.py", "read_data"),
@@ -519,7 +524,9 @@ class C20(Property):
             "model vs os.path on edge and random strings; derived names (empty --output-dir, --output-basename, "
             "compressed / hidden / dotted inputs); reuse round trips through a real results file and the real "
             "read_data (every position x 14 JSON values); run_antismash with the real changed_logging and the real "
-            "command-line parser (log file inside / below / outside the directory) x directory states x results; "
+            "command-line parser (log file inside / below / outside the directory) x directory states (incl. foreign "
+            "files called profiling_results) x results x 11 option sets over --profiling / --debug / --verbose / "
+            "--list-plugins / --check-prereqs / failing prerequisites / invalid options / no module; "
             "_run_antismash on directory x fault-position products; non-trivial = a fault with pre-existing target "
             "content, a non-empty existing directory, or any pipeline run")
     TRUSTED = ["POSIX semantics of open(path, 'w') (truncate/create) and of file objects being flushed when dropped "
@@ -561,7 +568,8 @@ class C20(Property):
         if not self._config_ready:
             build_config([], isolated=True, modules=[])
             self._config_ready = True
-        base = {"output_basename": "", "logfile": "", "output_dir": "", "reuse_results": ""}
+        base = {"output_basename": "", "logfile": "", "output_dir": "", "reuse_results": "", "profile": False,
+                "debug": False, "verbose": False, "list_plugins": False, "check_prereqs_only": False}
         base.update(values)
         update_config(base)
         return get_config()
@@ -872,12 +880,21 @@ class C20(Property):
                                                                         ent("r.region001.gbk", False)]]
         logpaths = ["{out}/run.log", "{out}/./run.log", "{out}/logs/run.log", "{out}/logs/deeper/run.log",
                     "{root}/elsewhere.log", "{root}/other/dir/elsewhere.log", ""]
+        targets += [[ent("profiling_results", False)], [ent("profiling_results", False), ent("profiling_results.bin", False),
+                                                        ent("run.log", False)]]
+        option_sets: List[Dict[str, bool]] = [
+            {}, {"profile": True}, {"profile": True, "debug": True}, {"verbose": True},
+            {"list_plugins": True, "profile": True}, {"check_prereqs_only": True, "profile": True},
+            {"check_prereqs_only": True, "prereqs_ok": False}, {"prereqs_ok": False, "profile": True},
+            {"options_valid": False, "profile": True}, {"any_module": False, "profile": True}, {"debug": True}]
         for target in targets:
-            for logpath in logpaths:
+            for logpath in logpaths if full else (logpaths[0], logpaths[2], logpaths[4], logpaths[6]):
                 for mode in ("fresh", "reuse"):
                     for results in (good, bad, stale) if full else (good, rng.choice([bad, stale])):
-                        yield {"kind": "pipeline", "family": "outer", "outer": True, "target": target,
-                               "input": self.MODES[mode], "dirname": "out", "logpath": logpath, "results": results}
+                        for opts in option_sets if full else option_sets[:2] + [rng.choice(option_sets[2:])]:
+                            yield {"kind": "pipeline", "family": "outer", "outer": True, "target": target,
+                                   "input": self.MODES[mode], "dirname": "out", "logpath": logpath,
+                                   "results": results, "opts": opts}
         if full:
             for logpath in ("out/run.log", "./out/logs/x.log"):
                 for target in targets[:6]:
@@ -1064,14 +1081,15 @@ class C20(Property):
         def __exit__(self, *args: Any) -> None:
             os.chdir(self.back)
 
-    def _observe_target(self, case: Dict[str, Any], real: str, path: str, logname: Optional[str] = None) -> Any:
+    def _observe_target(self, case: Dict[str, Any], real: str, path: str, logname: Optional[str] = None,
+                        created: Optional[List[str]] = None) -> Any:
         if not os.path.exists(real):
             return "absent"
         if not os.path.isdir(real):
             with open(real, encoding="utf-8") as handle:
                 return "file" if handle.read() == "a plain file" else [["<file changed>", False, []]]
         before = case["target"] if isinstance(case["target"], list) else []
-        listing = read_back(real, before, None, logname)
+        listing = read_back(real, before, None, logname, created)
         for decoy in ("out1", "result", "qx") if case.get("decoys", True) else ():
             if not os.path.exists(os.path.join(path, decoy, "decoy.region001.gbk")):
                 listing.append([f"../{decoy}/decoy.region001.gbk", False, [["raw", "<deleted>"]]])
@@ -1150,13 +1168,35 @@ class C20(Property):
             real_prepare(name, input_file)
             rec.events.append("prepared")
 
+        opts = case.get("opts", {})
+
+        def prerequisites(_modules: Any, _options: Any) -> None:
+            if not opts.get("prereqs_ok", True):
+                raise RuntimeError("Modules failing prerequisites")
+
+        import cProfile
+        import contextlib
+        import io
+        profilers: List[Any] = []
+
+        class TrackedProfile(cProfile.Profile):
+            """the code never disables its profiler when the run dies; the harness has to, or the next
+            profiled run cannot start ("Another profiling tool is already active")"""
+            def __init__(self, *args: Any, **kwargs: Any) -> None:
+                super().__init__(*args, **kwargs)
+                profilers.append(self)
+
         err = None
-        with self._Cwd(paths["cwd"]) as cwd, \
+        code: Any = None
+        with self._Cwd(paths["cwd"]) as cwd, contextlib.redirect_stdout(io.StringIO()), \
                 mock.patch.object(main, "_log_found_executables", lambda _o: None), \
                 mock.patch.object(main, "get_all_modules", lambda: []), \
-                mock.patch.object(main, "_get_all_enabled_modules", lambda _m, _o: ["stub"]), \
-                mock.patch.object(main, "check_prerequisites", lambda _m, _o: None), \
-                mock.patch.object(main, "verify_options", lambda _o, _m: True), \
+                mock.patch.object(main, "list_plugins", lambda: None), \
+                mock.patch.object(main.cProfile, "Profile", TrackedProfile), \
+                mock.patch.object(main, "_get_all_enabled_modules",
+                                  lambda _m, _o: ["stub"] if opts.get("any_module", True) else []), \
+                mock.patch.object(main, "check_prerequisites", prerequisites), \
+                mock.patch.object(main, "verify_options", lambda _o, _m: opts.get("options_valid", True)), \
                 mock.patch.object(main, "read_data", main.read_data if case.get("reload")
                                   else (lambda _s, _o: results)), \
                 mock.patch.object(main, "run_detection", lambda _r, _o, _m: {}), \
@@ -1175,6 +1215,10 @@ class C20(Property):
                     argv += ["--output-dir", paths["name"]]
                 if case.get("basename"):
                     argv += ["--output-basename", case["basename"]]
+                for flag, key in (("--profiling", "profile"), ("--debug", "debug"), ("--verbose", "verbose"),
+                                  ("--list-plugins", "list_plugins"), ("--check-prereqs", "check_prereqs_only")):
+                    if opts.get(key):
+                        argv.append(flag)
                 destroy_config()
                 options = build_config(argv, isolated=True, modules=[])
                 update_config({"reuse_results": input_path if reuse else ""})
@@ -1185,12 +1229,15 @@ class C20(Property):
                                       reuse_results=input_path if reuse else "")
             try:
                 if case.get("outer"):
-                    main.run_antismash(None if reuse else input_path, options)
+                    code = main.run_antismash(None if reuse else input_path, options)
                 else:
                     main._run_antismash(None if reuse else input_path, options)  # pylint: disable=protected-access
             except Exception as exc:  # pylint: disable=broad-except
                 err = exn_name(exc)
                 exc = None
+            finally:
+                for profiler in profilers:
+                    profiler.disable()
         logname = None
         events = rec.events
         if case.get("outer"):
@@ -1201,8 +1248,15 @@ class C20(Property):
             logname = None if inside.startswith("..") or inside == "." else inside.split(os.sep)[0]
             events = [e for e in events if not (isinstance(e, list) and e[0] in ("open", "write", "mkdir")
                                                 and (e[1].split(":")[0] == inside or "/" in e[1]))]
-        return {"trace": self._order_removes(case, events), "err": err,
-                "target": self._observe_target(case, real, path, logname),
+            # binary mode is still "w"; repeated writes to one handle are one write
+            events = [["open", e[1][:-3]] if isinstance(e, list) and e[0] == "open" and e[1].endswith(":wb") else e
+                      for e in events]
+            events = [e for k, e in enumerate(events)
+                      if not (k and isinstance(e, list) and e[0] == "write" and events[k - 1] == e)]
+        created = [e[1].split(":")[0].split("/")[0] for e in rec.events
+                   if isinstance(e, list) and e[0] in ("open", "mkdir")]
+        return {"trace": self._order_removes(case, events), "err": err, "code": code,
+                "target": self._observe_target(case, real, path, logname, created),
                 "paths": dict(paths, cwd=cwd, effective=options.output_dir), **extra}
 
     # ------------------------------------------------------------------ driver + verdict
@@ -1222,6 +1276,7 @@ class C20(Property):
             line["results_input"] = case.get("results_input", "seq.gbk")
             line["reload"] = bool(case.get("reload"))
             line["outer"] = bool(case.get("outer"))
+            line["opts"] = case.get("opts", {})
             if case.get("reload") and isinstance(line["target"], list) and "initial_json" in obs:
                 # the reused file holds what the first (real) write put there
                 line["target"] = [[n, d, obs["initial_json"] if n == obs["json_name"] else c]
@@ -1242,6 +1297,9 @@ class C20(Property):
         state = "dir" if case["kind"] == "write" else "target"
         mine = {"trace": canon_trace(obs["trace"]), "err": obs["err"], state: obs[state]}
         theirs = {"trace": canon_trace(model["trace"]), "err": model["err"], state: model[state]}
+        if case.get("outer"):
+            mine["code"] = obs.get("code")
+            theirs["code"] = model.get("code")
         if case.get("argform") == "empty":
             mine["name"] = obs["paths"].get("effective")
             theirs["name"] = drv.get("name")
